@@ -709,6 +709,11 @@ func (p precompileFunToken) bankMsgSend(
 	fromBech32 := eth.EthAddrToNibiruAddr(caller)
 	toBech32 := eth.EthAddrToNibiruAddr(toEthAddr)
 
+	// "sdk.NewCoin" panics on an invalid denom; reject it as an ordinary error
+	if err := sdk.ValidateDenom(denom); err != nil {
+		return nil, err
+	}
+
 	// do the bank send
 	coin := sdk.NewCoins(sdk.NewCoin(denom, math.NewIntFromBigInt(amount)))
 	bankMsg := &bank.MsgSend{
